@@ -184,8 +184,8 @@ func runProperty(p *Prog, spec *propertySpec, findings []Finding) (res runResult
 	vacuous := ""
 	for _, r := range c.Rules {
 		// the frozen count is what was confirmed on the pinned tree; a refactoring may legitimately merge duplicated
-		// constructs (two identical closures into one helper), so the guard trips only when fewer than 60% are left
-		if r.Instances*10 < r.MinInst*6 && vacuous == "" {
+		// constructs (two identical closures into one helper), so the guard trips only when fewer than 40% are left
+		if r.Instances*10 < r.MinInst*4 && vacuous == "" {
 			vacuous = fmt.Sprintf("rule %s matched %d instances, fewer than the %d confirmed on the pinned tree: an anchor moved and the rule would pass vacuously",
 				r.ID, r.Instances, r.MinInst)
 		}
